@@ -112,7 +112,7 @@ func (x *Exec) binop(op token.Token, a, b Value, opType, resType types.Type) Val
 		x.abort("UNSUPPORTED", fmt.Sprintf("binop %s on %T,%T", op, a, b))
 	}
 	switch ta.S {
-	case SFloat:
+	case SFloat, SFInt:
 		return x.fbinop(op, ta, tb)
 	case SInt:
 		return x.intBinop(op, ta, tb, opType)
@@ -356,6 +356,9 @@ func mkFloat(f float64) *Term {
 }
 
 func fneg(t *Term) *Term {
+	if t.S == SFInt {
+		return &Term{S: SFInt, E: "(- " + t.E + ")"}
+	}
 	if t.IsConc() {
 		return mkFloat(-t.C.(float64))
 	}
@@ -398,7 +401,101 @@ func floatFromModel(v string) *Term {
 	return mkFloat(0)
 }
 
+// fintCmp compares two float values of which at least one is an integer-valued symbolic float (SFInt).
+// op is one of = < <=.
+func fintCmp(op string, a, b *Term) *Term {
+	asInt := func(t *Term, roundUp bool) (*Term, bool) {
+		if t.S == SFInt {
+			return &Term{S: SInt, E: t.E}, true
+		}
+		if t.S == SFloat && t.IsConc() {
+			f := t.C.(float64)
+			if math.IsNaN(f) || math.IsInf(f, 0) {
+				return nil, false
+			}
+			bf := new(big.Float).SetFloat64(f)
+			bi, acc := bf.Int(nil) // truncation toward zero
+			if acc != big.Exact {
+				// non-integral constant: replace by the neighbouring integer that preserves the comparison
+				if (f > 0) == roundUp {
+					bi.Add(bi, big.NewInt(1))
+				}
+				if f < 0 && !roundUp {
+					bi.Sub(bi, big.NewInt(1))
+				}
+				if op == "=" {
+					return nil, false
+				}
+			}
+			return mkBig(bi), true
+		}
+		return nil, false
+	}
+	// a op b : for a non-integral constant c on the right of "<" we need a < ceil(c); of "<=" a <= floor(c);
+	// on the left of "<": floor(c) < b  <=> floor(c)+... handled by choosing rounding direction per side.
+	var ia, ib *Term
+	var ok1, ok2 bool
+	switch op {
+	case "<":
+		ia, ok1 = asInt(a, false) // c < b  <=> floor(c) < b (c non-integral: floor(c) < b <=> c < b for integer b)
+		ib, ok2 = asInt(b, true)  // a < c  <=> a < ceil(c)
+	case "<=":
+		ia, ok1 = asInt(a, true)  // c <= b <=> ceil(c) <= b
+		ib, ok2 = asInt(b, false) // a <= c <=> a <= floor(c)
+	default:
+		ia, ok1 = asInt(a, false)
+		ib, ok2 = asInt(b, false)
+	}
+	if !ok1 || !ok2 {
+		if op == "=" {
+			return tFalse // an integer-valued float never equals NaN, Inf or a non-integral constant
+		}
+		// comparisons with NaN are false; with +/-Inf decided by sign
+		for _, t := range []*Term{a, b} {
+			if t.S == SFloat && t.IsConc() && math.IsNaN(t.C.(float64)) {
+				return tFalse
+			}
+		}
+		if a.S == SFloat && a.IsConc() {
+			return mkBool(math.IsInf(a.C.(float64), -1))
+		}
+		if b.S == SFloat && b.IsConc() {
+			return mkBool(math.IsInf(b.C.(float64), 1))
+		}
+		panic(abortSig{"UNSUPPORTED", "comparison of integer-valued float with symbolic FP term"})
+	}
+	return app(SBool, op, ia, ib)
+}
+
+// roundToFloat64 returns the Int term for the float64 nearest to integer t (ties to even).
+func roundToFloat64(t *Term) *Term {
+	abs := tIte(tLe(mkInt(0), t), t, app(SInt, "-", t))
+	// binade k (2^(52+k) <= |t| < 2^(53+k)) has ulp 2^k; the largest applicable binade ends up outermost
+	res := t
+	for k := int64(1); k <= 11; k++ {
+		p := pow2(k)
+		half := pow2(k - 1)
+		q := app(SInt, "div", t, p)
+		rem := app(SInt, "mod", t, p)
+		odd := tEq(app(SInt, "mod", q, mkInt(2)), mkInt(1))
+		up := tOr(tLt(half, rem), tAnd(tEq(rem, half), odd))
+		r := app(SInt, "*", tIte(up, tAdd(q, mkInt(1)), q), p)
+		res = tIte(tLe(pow2(52+k), abs), r, res)
+	}
+	return res
+}
+
 func (x *Exec) intToFloat(t *Term, from types.Type) *Term {
+	if !t.IsConc() {
+		if _, lit := termBig(t); !lit {
+			// symbolic integer: stay in integer arithmetic (the FP theory mixed with Int/Real is unreliable)
+			lim := pow2(53)
+			if !x.sat(tOr(tLt(lim, t), tLt(t, app(SInt, "-", lim)))) {
+				return &Term{S: SFInt, E: t.E}
+			}
+			return &Term{S: SFInt, E: roundToFloat64(t).E}
+		}
+	}
 	if t.IsConc() {
 		if b, ok := from.Underlying().(*types.Basic); ok && b.Info()&types.IsUnsigned != 0 {
 			return mkFloat(float64(uint64(t.C.(int64))))
@@ -417,6 +514,14 @@ func (x *Exec) intToFloat(t *Term, from types.Type) *Term {
 // for int64 targets; other targets are unsupported when the value can be out of range.
 func (x *Exec) floatToInt(t *Term, to types.Type) *Term {
 	lo, hi, _ := intRange(to)
+	if t.S == SFInt {
+		k := to.Underlying().(*types.Basic).Kind()
+		if k != types.Int64 && k != types.Int {
+			x.abort("UNSUPPORTED", "integer-valued float to "+to.String())
+		}
+		v := &Term{S: SInt, E: t.E}
+		return tIte(tAnd(tLe(mkBig(lo), v), tLe(v, mkBig(hi))), v, mkBig(lo))
+	}
 	if t.IsConc() {
 		f := t.C.(float64)
 		if to.Underlying().(*types.Basic).Kind() == types.Int64 || to.Underlying().(*types.Basic).Kind() == types.Int {
@@ -442,6 +547,23 @@ func (x *Exec) floatToInt(t *Term, to types.Type) *Term {
 }
 
 func (x *Exec) fbinop(op token.Token, a, b *Term) Value {
+	if a.S == SFInt || b.S == SFInt {
+		switch op {
+		case token.LSS:
+			return fintCmp("<", a, b)
+		case token.LEQ:
+			return fintCmp("<=", a, b)
+		case token.GTR:
+			return fintCmp("<", b, a)
+		case token.GEQ:
+			return fintCmp("<=", b, a)
+		case token.EQL:
+			return fintCmp("=", a, b)
+		case token.NEQ:
+			return tNot(fintCmp("=", a, b))
+		}
+		x.abort("UNSUPPORTED", "arithmetic on integer-valued symbolic float")
+	}
 	if a.IsConc() && b.IsConc() {
 		p, q := a.C.(float64), b.C.(float64)
 		switch op {
